@@ -354,6 +354,7 @@ Proof.
     destruct (nth_arg parts 1) as [key|]; [|inversion H'; subst; exact D].
     destruct (if nparts parts =? 3 then match nth_arg parts 2 with Some c => parse_usize c | None => None end else Some 1) as [n|];
       [|inversion H'; subst; exact D].
+    destruct (eng_zcard d key); [|inversion H'; subst; exact D].
     destruct (zpop_loop _ d key 0 []) as [[[|x l] d1]|] eqn:E; inversion H'; subst; try exact D;
     eapply zpop_loop_zok; eauto.
   - (* ZPOPMAX *) unfold h_zpop in H'.
@@ -361,6 +362,7 @@ Proof.
     destruct (nth_arg parts 1) as [key|]; [|inversion H'; subst; exact D].
     destruct (if nparts parts =? 3 then match nth_arg parts 2 with Some c => parse_usize c | None => None end else Some 1) as [n|];
       [|inversion H'; subst; exact D].
+    destruct (eng_zcard d key); [|inversion H'; subst; exact D].
     destruct (zpop_loop _ d key (-1) []) as [[[|x l] d1]|] eqn:E; inversion H'; subst; try exact D;
     eapply zpop_loop_zok; eauto.
 Qed.
@@ -594,12 +596,14 @@ Proof.
     destruct (nth_arg parts 1) as [key|]; [|inversion H'; subst; reflexivity].
     destruct (if nparts parts =? 3 then match nth_arg parts 2 with Some c => parse_usize c | None => None end else Some 1) as [n|];
       [|inversion H'; subst; reflexivity].
+    destruct (eng_zcard d key); [|inversion H'; subst; reflexivity].
     destruct (zpop_loop _ d key 0 []) as [[[|x l] d1]|] eqn:E; inversion H'; subst; try discriminate; reflexivity.
   - (* ZPOPMAX *) unfold h_zpop in H'.
     destruct ((nparts parts <? 2) || (3 <? nparts parts)); [inversion H'; subst; reflexivity|].
     destruct (nth_arg parts 1) as [key|]; [|inversion H'; subst; reflexivity].
     destruct (if nparts parts =? 3 then match nth_arg parts 2 with Some c => parse_usize c | None => None end else Some 1) as [n|];
       [|inversion H'; subst; reflexivity].
+    destruct (eng_zcard d key); [|inversion H'; subst; reflexivity].
     destruct (zpop_loop _ d key (-1) []) as [[[|x l] d1]|] eqn:E; inversion H'; subst; try discriminate; reflexivity.
 Qed.
 
